@@ -160,6 +160,7 @@ pub fn run_program(pid: u64, prog: &Value) -> Vec<Value> {
     let obj = rec.as_object_mut().unwrap();
     obj.insert("pid".into(), json!(pid));
     obj.insert("pieces".into(), prog["pieces"].clone());
+    let _ = crate::exec::drain_probes();
     let res = catch_unwind(AssertUnwindSafe(|| {
       let a = eval(&step["a"], &arena);
       let b = eval(&step["b"], &arena);
@@ -173,6 +174,7 @@ pub fn run_program(pid: u64, prog: &Value) -> Vec<Value> {
         _ => json!({"valid": false}),
       }
     }));
+    obj.insert("probes".into(), crate::exec::drain_probes());
     match res {
       Ok(out) => {
         obj.insert("oc".into(), json!("ok"));
